@@ -87,28 +87,41 @@ func (e *Engine) concretize(fr *Frame, st *State, v ssa.Value, limit int) uint64
 }
 
 // enumerate lists the feasible values of t under the path condition (up to limit).
+// Values 0..limit are probed one by one (a check-sat each, no model construction); if t can
+// exceed the probed range the concretisation limit is reported.
 func (e *Engine) enumerate(st *State, t *Term, limit int) []uint64 {
 	e.sync(st.pc)
-	e.solver.Push()
+	tm := e.tm
 	var vals []uint64
-	for {
-		if e.solver.Check() != Sat {
-			break
+	lo := 0
+	if h, ok := e.hints[t]; ok {
+		// range recorded when the input was created (vpInt)
+		if int(h[1]) < limit {
+			limit = int(h[1])
 		}
-		v, err := e.solver.GetValues([]*Term{t})
-		if err != nil {
-			e.solver.Pop()
-			panic(unsupported("enumerate: " + err.Error()))
-		}
-		vals = append(vals, v[0])
-		if len(vals) > limit {
-			e.solver.Pop()
-			e.rep.UnwindHits++
-			panic(unsupported(fmt.Sprintf("concretisation limit %d exceeded", limit)))
-		}
-		e.solver.Assert(e.tm.Ne(t, e.tm.BV(v[0], t.w)))
+		lo = int(h[0])
+	} else if ub, ok := tm.ubound(t); ok && ub < uint64(limit) {
+		limit = int(ub)
 	}
-	e.solver.Pop()
+	for k := lo; k <= limit; k++ {
+		r := e.solver.CheckWith(tm.Eq(t, tm.BV(uint64(k), t.w)))
+		if r == Unknown {
+			e.rep.Unknowns++
+		}
+		if r != Unsat {
+			vals = append(vals, uint64(k))
+		}
+	}
+	if _, hinted := e.hints[t]; hinted {
+		return vals
+	}
+	if ub, ok := tm.ubound(t); ok && ub <= uint64(limit) {
+		return vals
+	}
+	if e.solver.CheckWith(tm.Ult(tm.BV(uint64(limit), t.w), t)) != Unsat {
+		e.rep.UnwindHits++
+		panic(unsupported(fmt.Sprintf("concretisation limit %d exceeded", limit)))
+	}
 	return vals
 }
 
@@ -707,7 +720,8 @@ func (e *Engine) sliceOp(fr *Frame, st *State, in *ssa.Slice) Value {
 							// values above the length panic anyway; the panic obligation is decided first
 							t64 := e.index64(fr, bv)
 							e.panicObligation(st, tm.Ule(t64, baseLen), "slice-bounds", in)
-							e.concretize(fr, st, bv, lim+1)
+							e.hints[e.term(fr, bv)] = [2]uint64{0, c} // established by the obligation above
+							e.concretize(fr, st, bv, int(c))
 						}
 					}
 				}
@@ -785,6 +799,8 @@ func (e *Engine) makeSlice(fr *Frame, st *State, in *ssa.MakeSlice) Value {
 	if hook := e.bound("alloc_limit", 0); hook > 0 {
 		e.panicObligation(st, tm.Ule(cp, e.c64(uint64(hook))), "allocation-above-limit", in)
 	}
+	esz := uint64(e.ld.sizes.Sizeof(st_.Elem()))
+	e.countAlloc(st, tm.Mul(cp, e.c64(esz)))
 	o := e.newObject("make", st_.Elem())
 	if isByteType(st_.Elem()) {
 		st.mem.set(o, ArrExpr(emptyArr))
